@@ -1,0 +1,102 @@
+//go:build verif
+
+// Verification hook for property C06 (xDS cache): add-only access to the unexported
+// lruCache[uint64] so that an external harness can drive the real Add/Get/Clear/ClearAll/Flush
+// and observe the complete state (LRU order, per-entry token and dependents, cache token,
+// reverse index, eviction queue).  No existing line is changed.
+
+package model
+
+import (
+	discovery "github.com/envoyproxy/go-control-plane/envoy/service/discovery/v3"
+
+	"istio.io/istio/pkg/util/sets"
+)
+
+// VerifC06Cache wraps one real typed cache (capacity = features.XDSCacheMaxSize at creation time
+// and at every ClearAll, exactly as in production).
+type VerifC06Cache struct {
+	c *lruCache[uint64]
+}
+
+type verifC06Deps []ConfigHash
+
+func (d verifC06Deps) DependentConfigs() []ConfigHash { return d }
+
+type VerifC06Entry struct {
+	Key   uint64
+	Token uint64
+	Deps  []ConfigHash
+	Value *discovery.Resource
+}
+
+type VerifC06Evict struct {
+	Key  uint64
+	Deps []ConfigHash
+}
+
+type VerifC06State struct {
+	Entries    []VerifC06Entry // oldest first (simplelru Keys() order)
+	Token      uint64
+	Index      map[ConfigHash][]uint64
+	EvictQueue []VerifC06Evict
+}
+
+func VerifC06NewCache() *VerifC06Cache {
+	return &VerifC06Cache{c: newTypedXdsCache[uint64]().(*lruCache[uint64])}
+}
+
+func (v *VerifC06Cache) Add(k uint64, deps []ConfigHash, req *PushRequest, value *discovery.Resource) {
+	v.c.Add(k, verifC06Deps(deps), req, value)
+}
+
+func (v *VerifC06Cache) Get(k uint64) *discovery.Resource { return v.c.Get(k) }
+
+func (v *VerifC06Cache) Clear(s sets.Set[ConfigKey]) { v.c.Clear(s) }
+
+func (v *VerifC06Cache) ClearAll() { v.c.ClearAll() }
+
+func (v *VerifC06Cache) Flush() { v.c.Flush() }
+
+func (v *VerifC06Cache) Keys() []uint64 { return v.c.Keys() }
+
+// Token returns the cache's current invalidation token.
+func (v *VerifC06Cache) Token() uint64 {
+	v.c.mu.Lock()
+	defer v.c.mu.Unlock()
+	return uint64(v.c.token)
+}
+
+// State copies the whole state without touching LRU recency (Peek, not Get).
+func (v *VerifC06Cache) State() VerifC06State {
+	v.c.mu.Lock()
+	defer v.c.mu.Unlock()
+	st := VerifC06State{Token: uint64(v.c.token), Index: map[ConfigHash][]uint64{}}
+	for _, k := range v.c.store.Keys() {
+		cv, _ := v.c.store.Peek(k)
+		st.Entries = append(st.Entries, VerifC06Entry{Key: k, Token: uint64(cv.token), Deps: append([]ConfigHash{}, cv.dependentConfigs...), Value: cv.value})
+	}
+	for h, ks := range v.c.configIndex {
+		st.Index[h] = append([]uint64{}, ks.UnsortedList()...)
+	}
+	for _, e := range v.c.evictQueue {
+		st.EvictQueue = append(st.EvictQueue, VerifC06Evict{Key: e.key, Deps: append([]ConfigHash{}, e.dependentConfigs...)})
+	}
+	return st
+}
+
+// VerifC06TypedParts takes the production four-way cache and returns wrappers of its typed
+// parts (nil where that type is disabled by feature flags or not keyed by uint64).
+func VerifC06TypedParts(x XdsCache) (cds, eds, rds *VerifC06Cache) {
+	impl, ok := x.(XdsCacheImpl)
+	if !ok {
+		return nil, nil, nil
+	}
+	w := func(t typedXdsCache[uint64]) *VerifC06Cache {
+		if l, ok := t.(*lruCache[uint64]); ok {
+			return &VerifC06Cache{c: l}
+		}
+		return nil
+	}
+	return w(impl.cds), w(impl.eds), w(impl.rds)
+}
